@@ -19,6 +19,7 @@ import (
 //verif:stub (*os.File).WriteAt verifStub_fileWriteAt
 //verif:stub (*os.File).Write verifStub_fileWrite
 //verif:stub (*os.File).Read verifStub_fileRead
+//verif:stub (*os.File).ReadAt verifStub_fileReadAt
 //verif:stub (*os.File).Seek verifStub_fileSeek
 //verif:stub (*os.File).Close verifStub_fileClose
 //verif:stub (*os.File).Truncate verifStub_fileTruncate
@@ -150,6 +151,24 @@ func verifStub_fileRead(f *os.File, b []byte) (int, error) {
 	}
 	n := copy(b, h.ino.data[h.pos:])
 	h.pos += int64(n)
+	return n, nil
+}
+
+func verifStub_fileReadAt(f *os.File, b []byte, off int64) (int, error) {
+	h, err := verifHandleOf(f)
+	if err != nil {
+		return 0, err
+	}
+	if off < 0 {
+		return 0, &verifFSError{"negative offset"}
+	}
+	if off >= int64(len(h.ino.data)) {
+		return 0, io.EOF
+	}
+	n := copy(b, h.ino.data[off:])
+	if n < len(b) {
+		return n, io.EOF
+	}
 	return n, nil
 }
 
